@@ -168,6 +168,33 @@ pub fn main_sched(args: &[String]) -> i32 {
         }
         inputs.push(FInput { id: inputs.len(), kind: "ties".into(), gens, anchor: DVec3::ZERO, width: DVec3::splat(w), dim: *dim, per: false });
     }
+    // lattices perturbed by 1e-14 .. 1e-12 of the box: edges of a cell lie in later bisectors up to rounding, some decided by the
+    // exact predicate (ties) and some by the float filter - the rarely taken branches of the builder run side by side here, on
+    // several threads and after other builds (state left behind by one clip must not reach another)
+    {
+        let mut r3 = StdRng::seed_from_u64(seed ^ 0x13E13);
+        let reps = if count < 20 { 4 } else { 12 };
+        for j in 0..reps {
+            let dim = if j % 4 == 3 { 2 } else { 3 };
+            let m = if dim == 2 { 5 } else { 3 + (j % 2) };
+            let w = DVec3::new(1.0, 1.3, 0.7) * [1.0, 3.7, 0.11][j % 3];
+            let eps = 10f64.powf(r3.gen_range(-14.0..-12.0));
+            let mm = [m, m, if dim == 3 { m } else { 1 }];
+            let mut gens = vec![];
+            for a in 0..mm[0] {
+                for b in 0..mm[1] {
+                    for c in 0..mm[2] {
+                        let p = DVec3::new((a as f64 + 0.5) / mm[0] as f64, (b as f64 + 0.5) / mm[1] as f64, if dim == 3 { (c as f64 + 0.5) / mm[2] as f64 } else { 0.0 });
+                        let e = DVec3::new(r3.gen_range(-1.0..1.0), r3.gen_range(-1.0..1.0), if dim == 3 { r3.gen_range(-1.0..1.0) } else { 0.0 }) * eps;
+                        // only some generators are moved: the others keep exact ties among themselves
+                        let e = if r3.gen_bool(0.3) { e } else { DVec3::ZERO };
+                        gens.push((p + e) * w);
+                    }
+                }
+            }
+            inputs.push(FInput { id: inputs.len(), kind: "nearties".into(), gens, anchor: DVec3::ZERO, width: w, dim, per: false });
+        }
+    }
     if big {
         // one large input: thresholds on the number of faces / cells must not change the result either
         let mut rng = StdRng::seed_from_u64(seed ^ 0xB16);
